@@ -89,6 +89,7 @@ def run(chk: lib.Check):
                 model = corpus.load(spec0)
             uuidmod.uuid4 = lambda rng=rng: uuidmod.UUID(int=rng.getrandbits(128), version=4)
             hot_holders: list[str] = []
+            hot_objs: list[str] = []
             if state == "edited":
                 # ask first, edit afterwards, ask again on the SAME model object: whatever a query remembers must not outlive an edit
                 primed = 0
@@ -170,6 +171,35 @@ def run(chk: lib.Check):
                     cut += 1
                     hot_holders.append(xu_)
                 stats["deletions_emptying_a_path_segment"] += cut
+                # ... and deletions of objects that back-references REPORT (a holder disappears): what was reported before the edit must
+                # not be reported afterwards
+                gone_holders = 0
+                for x_ in histories._objects(model, rng, 600):
+                    if gone_holders >= 4:
+                        break
+                    if not r._alive(x_):
+                        continue
+                    for an_ in dir(type(x_)):
+                        acc_ = getattr(type(x_), an_, None)
+                        if not isinstance(acc_, D.ReferenceSearchingAccessor) or acc_.aslist is None:
+                            continue
+                        try:
+                            reported = list(getattr(x_, an_))
+                        except Exception:  # noqa: BLE001
+                            continue
+                        for h_ in reported[:1]:
+                            cont = r.container_of(h_) if r._alive(h_) else None
+                            if cont is None:
+                                continue
+                            try:
+                                getattr(cont[0], cont[1]).remove(h_)
+                                gone_holders += 1
+                                hot_objs.append(x_.uuid)
+                            except Exception:  # noqa: BLE001
+                                pass
+                        if gone_holders >= 4:
+                            break
+                stats["deletions_of_reported_holders"] += gone_holders
                 chk.coverage["path_first_segments"] = sorted(first_segs)
             loader = model._loader
             A = graph.Abstraction()
@@ -278,6 +308,9 @@ def run(chk: lib.Check):
                                 for y_ in (val_ if isinstance(val_, _obj.ElementList) else [val_]):
                                     if isinstance(y_, cls_) and y_.uuid in byu and y_ not in hot:
                                         hot.append(y_)
+            for u_ in hot_objs:
+                if u_ in byu and byu[u_] not in hot:
+                    hot.insert(0, byu[u_])
             stats["objects_behind_a_candidate_with_an_emptied_path"] += len(hot)
             for o in hot[:60] + rng.sample(objs, min(120 if quick else 800, len(objs))):
                 cls = type(o)
